@@ -36,10 +36,10 @@ def qbytes_mm(activations: torch.Tensor, weights: torch.Tensor, output_scales: t
 def qbytes_int_mm(activations: torch.Tensor, weights: torch.Tensor, output_scales: torch.Tensor) -> torch.Tensor:
     in_features = activations.shape[-1]
     out_features = weights.shape[0]
-    # torch._int_mm reads its first operand as a dense matrix: materialize expanded (stride 0) activations
+    # torch._int_mm reads its operands as dense matrices: materialize expanded (stride 0) activations and weights
     activations = activations.contiguous()
     # torch._int_mm works on transposed weights, i.e (in_features, out_features)
-    weights = weights.t()
+    weights = weights.contiguous().t()
     if activations.ndim == 2:
         out_data = torch._int_mm(activations, weights)
     else:
@@ -55,8 +55,9 @@ def qbytes_int_mm(activations: torch.Tensor, weights: torch.Tensor, output_scale
 def qbytes_int8pack_mm(activations: torch.Tensor, weights: torch.Tensor, output_scales: torch.Tensor) -> torch.Tensor:
     # torch._weight_int8pack_mm expects a vector of scales
     output_scales = output_scales.flatten()
-    # and activations that are contiguous on their last dimension
+    # and contiguous activations and weights
     activations = activations.contiguous()
+    weights = weights.contiguous()
     if activations.ndim == 2:
         return torch._weight_int8pack_mm(activations, weights, output_scales)
     else:
@@ -76,9 +77,9 @@ def qbytes_mm_impl_default(
 
 @torch.library.impl("quanto::qbytes_mm", "CUDA")
 def qbytes_mm_impl_cuda(activations: torch.Tensor, weights: torch.Tensor, output_scales: torch.Tensor) -> torch.Tensor:
-    assert activations.ndim in (2, 3)
     in_features = activations.shape[-1]
-    tokens = activations.shape[0] if activations.ndim == 2 else activations.shape[0] * activations.shape[1]
+    # All the dimensions but the last one are batch dimensions
+    tokens = activations.numel() // in_features
     out_features = weights.shape[0]
     if (
         activations.dtype == torch.int8
